@@ -21,6 +21,7 @@ CONSTANTS
   MaxReacts,   \* bound on the number of such reactions
   AbandonAt,   \* event names at which the application may abandon the iterator (C13)
   Conforming,  \* TRUE: the server only produces RFC 6455 conforming frame sequences
+  AfterClose,  \* TRUE: the server may keep sending after its own Close frame (RFC 6455 forbids it)
   Cfg          \* [poll, ping_rate, ping_timeout, close_timeout, auto_pong]; 0 stands for None/disabled
 
 VARIABLES pc, ret, L, E, inq, fk, obs, script
@@ -31,7 +32,7 @@ LInit == [sock |-> "none", closing |-> FALSE, closed |-> FALSE, ready |-> FALSE,
           frags |-> <<>>, u8 |-> U8Start, istext |-> FALSE, sentClose |-> -1, pollStart |-> -1,
           nextPing |-> 0, lastPong |-> 0, startT |-> -1, sel |-> "none"]
 EInit == [clock |-> 0, nItems |-> 0, nIdle |-> 0, nReacts |-> 0, srvOpen |-> "none", srvU8 |-> U8Start,
-          srvClosed |-> FALSE, partial |-> FALSE, sentHttp |-> FALSE, nev |-> 0, ic |-> 0, pdt |-> 0, silent |-> FALSE, srvAcc |-> PVEmpty]
+          srvClosed |-> FALSE, partial |-> FALSE, sentHttp |-> FALSE, nev |-> 0, ic |-> 0, pdt |-> 0, silent |-> FALSE, srvAcc |-> PVEmpty, spos |-> 0, fpos |-> 0]
 SInit == [dns |-> "ok", net |-> <<>>, writes |-> <<>>, stream |-> <<>>, steps |-> <<>>, react |-> <<>>]
 
 Init == /\ pc = "start" /\ ret = <<>> /\ L = LInit /\ E = EInit /\ inq = <<>> /\ fk = "none"
@@ -90,6 +91,7 @@ ConformingFrame(f, e) ==
   /\ f.op = OpClose => LET c == ParseClose(f.pl) IN c.ok /\ (c.code = -1 \/ CloseCodeClass(c.code) = "must_accept")
 LegalItem(it, e) ==
   /\ e.sentHttp /\ ~e.partial
+  /\ AfterClose \/ ~e.srvClosed
   /\ it.t = "f" /\ Conforming => ConformingFrame(it, e)
   /\ it.t = "part" => ~Conforming
 \* payload of the data message a frame belongs to, up to and including that frame (plain concatenation)
@@ -97,11 +99,14 @@ AccAfter(it, e) == IF it.t # "f" \/ IsControl(it.op) THEN e.srvAcc
                    ELSE IF it.op # OpCont THEN it.pl
                    ELSE IF PVIsSmall(e.srvAcc) /\ PVIsSmall(it.pl) THEN PVCat(e.srvAcc, it.pl)
                    ELSE [n |-> <<(PVLen(e.srvAcc) + PVLen(it.pl)) \div 65536, (PVLen(e.srvAcc) + PVLen(it.pl)) % 65536>>, s |-> <<>>, h |-> "cat"]
-WithAcc(it, e) == IF it.t = "f" THEN it @@ [acc |-> AccAfter(it, e)] ELSE it
+\* wire length of an item in bytes (the HTTP reply is not counted: offsets are relative to its end)
+HdrLen(f) == 2 + (IF f.ann = "huge" THEN 8 ELSE IF PVLen(f.pl) < 126 THEN 0 ELSE IF PVLen(f.pl) < 65536 THEN 2 ELSE 8) + (IF f.mask THEN 4 ELSE 0)
+ItemLen(it) == IF it.t = "f" THEN HdrLen(it) + PVLen(it.pl) ELSE IF it.t = "part" THEN 1 ELSE 0
+WithAcc(it, e) == IF it.t = "f" THEN it @@ [acc |-> AccAfter(it, e), off |-> e.spos + HdrLen(it), end |-> e.spos + ItemLen(it)] ELSE it
 SrvAfter(it, e) ==      \* server-side bookkeeping after sending an item
-  IF it.t = "part" THEN [e EXCEPT !.partial = TRUE, !.nItems = @ + 1]
+  IF it.t = "part" THEN [e EXCEPT !.partial = TRUE, !.nItems = @ + 1, !.spos = @ + 1]
   ELSE LET kind == FrameKind(it, e.srvOpen) IN
-    [e EXCEPT !.nItems = @ + 1, !.srvAcc = AccAfter(it, e),
+    [e EXCEPT !.nItems = @ + 1, !.srvAcc = AccAfter(it, e), !.spos = @ + ItemLen(it),
               !.srvClosed = @ \/ it.op = OpClose,
               !.srvOpen = IF kind = "ctl" THEN @ ELSE IF it.fin = 1 THEN "none" ELSE kind,
               !.srvU8 = IF kind = "text" /\ PVIsSmall(it.pl) THEN U8Run(IF it.op = 1 THEN U8Start ELSE @, it.pl.s) ELSE @]
@@ -264,7 +269,7 @@ RegCloseTimeout ==
 
 SrvRec(it, idx) ==
   IF it.t = "f" THEN [k |-> "srv", i |-> idx, it |-> "f", op |-> it.op, fin |-> it.fin, rsv1 |-> it.rsv1, rsv2 |-> it.rsv2,
-                      rsv3 |-> it.rsv3, mask |-> it.mask, pl |-> it.pl, acc |-> it.acc, ann |-> it.ann]
+                      rsv3 |-> it.rsv3, mask |-> it.mask, pl |-> it.pl, acc |-> it.acc, ann |-> it.ann, off |-> it.off, end |-> it.end]
   ELSE [k |-> "srv", i |-> idx, it |-> it.t]
 
 \* ---- recv -----------------------------------------------------------------------------------------
@@ -281,9 +286,10 @@ Recv ==
      ELSE IF h.t = "boom"
      THEN /\ obs' = Append(obs, [k |-> "rd", what |-> "boom"])
           /\ pc' = "exit_error" /\ inq' = <<>> /\ UNCHANGED <<ret, L, E, fk, script>>
-     ELSE /\ E' = [E EXCEPT !.ic = @ + Len(inq)]
+     ELSE LET RECURSIVE Bytes(_) Bytes(j) == IF j > Len(inq) THEN 0 ELSE ItemLen(inq[j]) + Bytes(j + 1) IN
+          /\ E' = [E EXCEPT !.ic = @ + Len(inq), !.fpos = @ + Bytes(1)]
           /\ obs' = obs \o [j \in 1..Len(inq) |-> SrvRec(inq[j], E.ic + j - 1)]
-                        \o <<[k |-> "rd", what |-> "data", ic |-> E.ic + Len(inq)]>>
+                        \o <<[k |-> "rd", what |-> "data", ic |-> E.ic + Len(inq), fpos |-> E.fpos + Bytes(1)]>>
           /\ pc' = IF L.closed THEN "looptest" ELSE "feednext"
           /\ inq' = IF L.closed THEN <<>> ELSE inq
           /\ UNCHANGED <<ret, L, fk, script>>
